@@ -13,12 +13,29 @@ COQ_DEPS = ["Common/ListX.v", "Common/ObsHash.v", "Generated/Tables.v", "Model/P
 COQ_IMPORTS = "From Mesa Require Import Model.PropLayer."
 COQ_CASE_TYPE = "case"
 COQ_RUN = "run_case"
-TABLE_CONSTRUCTS = []
-RULE = ("histories = one grid (discrete: OrthogonalMoore/VonNeumann/Hex, 2-D and 3-D; legacy: SingleGrid, MultiGrid "
-        "without agents) of at most 12 cells + 6..22 operations out of: create/add/remove layers (incl. clashes, wrong "
+TABLE_CONSTRUCTS = ["select_order_discrete", "select_order_legacy", "select_empty_source"]
+_PL, _SP, _DS = "mesa/discrete_space/property_layer.py", "mesa/space.py", "mesa/discrete_space/"
+# the source functions Model/PropLayer.v transcribes (harness/fingerprint.py: a change escalates the search)
+SOURCE_FUNCS = [
+    (_PL, "PropertyLayer.__init__"), (_PL, "PropertyLayer.set_cells"), (_PL, "PropertyLayer.modify_cells"),
+    (_PL, "HasPropertyLayers.create_property_layer"), (_PL, "HasPropertyLayers.add_property_layer"),
+    (_PL, "HasPropertyLayers.remove_property_layer"), (_PL, "HasPropertyLayers.set_property"),
+    (_PL, "HasPropertyLayers.modify_properties"), (_PL, "HasPropertyLayers.select_cells"),
+    (_PL, "PropertyDescriptor"), (_PL, "ufunc_requires_additional_input"),
+    (_DS + "cell.py", "Cell.add_agent"), (_DS + "cell.py", "Cell.remove_agent"), (_DS + "cell.py", "Cell.is_empty"),
+    (_DS + "cell_agent.py", "HasCell"), (_DS + "cell_agent.py", "BasicMovement"), (_DS + "grid.py", "Grid.__init__"),
+    (_SP, "PropertyLayer"), (_SP, "_PropertyGrid"), (_SP, "ufunc_requires_additional_input"),
+    (_SP, "is_single_argument_function"), (_SP, "_Grid.move_agent"), (_SP, "_Grid.is_cell_empty"),
+    (_SP, "SingleGrid.place_agent"), (_SP, "SingleGrid.move_agent"), (_SP, "SingleGrid.remove_agent"),
+    (_SP, "MultiGrid.place_agent"), (_SP, "MultiGrid.remove_agent"),
+]
+RULE = ("histories = one grid (discrete: OrthogonalMoore/VonNeumann/Hex, 2-D and 3-D, cell capacity none/1/2; legacy: "
+        "SingleGrid, MultiGrid, HexSingleGrid, HexMultiGrid) of at most 12 cells + 6..22 operations out of: create/add/remove layers (incl. clashes, wrong "
         "shape, detached layers re-attached), cell writes, layer writes (incl. negative and out-of-range indices), "
         "set_cells / modify_cells with and without condition (binary ufunc, unary ufunc, python function), "
-        "modify_cell, full-array assignment, agent place/move/remove, select_cells over conditions x masks x "
+        "modify_cell, full-array assignment, agent place / move (cell setter, move_to, move_agent) / move_relative / "
+        "remove incl. the rejected ones (occupied SingleGrid cell, full cell, no cell in that direction) and several "
+        "agents per MultiGrid cell, select_cells over conditions x masks x "
         "only_empty x extreme values (ties on purpose) in list and mask form; the whole state (every layer through "
         "the layer view and through the cell attributes, the three name tables, emptiness) is observed after every "
         "operation; non-trivial = at least 4 operations of which one write/bulk op succeeded and one select returned "
@@ -39,9 +56,8 @@ ASSUMPTIONS = [
     "int/float layers, arithmetic ufuncs on bool layers, comparisons returning non-bool), conditions that are ufuncs, "
     "indices with fewer components than the array has axes, masks of a shape other than the grid's",
     "the built-in 'empty' layer is read (conditions, only_empty) but never written or removed by the history itself; "
-    "cells have no capacity limit (capacity is C06's subject)",
-    "legacy MultiGrid histories contain no agents (its empty_mask defect belongs to C08); legacy move_agent onto an "
-    "occupied cell is not executed (C08/C18 defect #8)",
+    "cell capacities are None, 1 or 2 (the emptiness theorem assumes capacity >= 0); grids are not tori; "
+    "move_relative is issued on Moore / von Neumann grids only (hex connection keys belong to C07)",
     "order of select_cells' list form is row-major (np.where order), compared in order",
 ]
 E_VALUE, E_KEY, E_INDEX, E_ATTR, E_TYPE, E_EXC = 1, 2, 3, 4, 5, 6
@@ -58,8 +74,10 @@ DISCRETE_CLS = ["OrthogonalMooreGrid", "OrthogonalVonNeumannGrid", "HexGrid"]
 class _G:
     """generator-side bookkeeping (what probably exists), only to make most operations meaningful"""
 
-    def __init__(self, rng, impl, cls, dims):
+    def __init__(self, rng, impl, cls, dims, cap=0):
         self.rng, self.impl, self.cls, self.dims = rng, impl, cls, list(dims)
+        self.cap = cap
+        self.multi = "Multi" in cls
         self.handles = []          # (name, dt, dims)
         self.grid = {}             # name -> handle
         self.agents = {}           # id -> coord
@@ -192,26 +210,53 @@ class _G:
             self.ops.append(["modcells", ref, form, f, hasval, self.cond(dt) if self.rng.random() < 0.5 else None])
 
     def op_agent(self):
+        """place / move / move_relative / remove; also the rejected ones (occupied SingleGrid cell, full cell,
+        no cell in that direction)"""
         r = self.rng
-        if self.cls == "MultiGrid":
-            return
         k = r.random()
-        if k < 0.5 or not self.agents:
-            c = r.choice(self.coords)
-            if self.impl == "legacy" and any(v == c for v in self.agents.values()) and r.random() < 0.7:
+        single = self.impl == "legacy" and not self.multi
+
+        def count(c):
+            return sum(1 for v in self.agents.values() if v == c)
+
+        def accepts(c, a=None):
+            others = sum(1 for b, v in self.agents.items() if v == c and b != a)
+            if single:
+                return others == 0
+            if self.impl == "discrete" and self.cap:
+                return others < self.cap or self.agents.get(a) == c
+            return True
+
+        if k < 0.4 or not self.agents:
+            c = list(r.choice(self.coords))
+            if not accepts(c) and r.random() < 0.35:
                 return
             a = self.next_agent
             self.next_agent += 1
-            self.ops.append(["place", a, list(c)])
-            if self.impl == "discrete" or not any(v == c for v in self.agents.values()):
-                self.agents[a] = list(c)
-        elif k < 0.8:
+            self.ops.append(["place", a, c])
+            if accepts(c):
+                self.agents[a] = c
+        elif k < 0.62:
             a = r.choice(list(self.agents))
-            c = r.choice(self.coords)
-            if self.impl == "legacy" and any(v == c and b != a for b, v in self.agents.items()):
+            c = list(r.choice(self.coords))
+            if not accepts(c, a) and r.random() < 0.25:
                 return
-            self.ops.append(["move", a, list(c)])
-            self.agents[a] = list(c)
+            self.ops.append(["move", a, c])
+            if accepts(c, a):
+                self.agents[a] = c
+        elif k < 0.84 and self.impl == "discrete" and self.cls != "HexGrid":
+            a = r.choice(list(self.agents))
+            nd = len(self.dims)
+            d = [r.choice([-1, 0, 0, 1]) for _ in range(nd)]
+            if r.random() < 0.5:
+                d = [0] * nd
+                d[r.randrange(nd)] = r.choice([-1, 1])
+            self.ops.append(["mrel", a, d])
+            moore = self.cls == "OrthogonalMooreGrid"
+            nz = sum(1 for x in d if x)
+            t = [x + y for x, y in zip(self.agents[a], d)]
+            if (nz >= 1 if moore else nz == 1) and all(0 <= x < m for x, m in zip(t, self.dims)) and accepts(t, a):
+                self.agents[a] = t
         else:
             a = r.choice(list(self.agents))
             self.ops.append(["rm", a])
@@ -315,15 +360,17 @@ def _random_case(rng, impl=None, n_ops=None):
         cls = rng.choice(DISCRETE_CLS[:2] if len(dims) != 2 else DISCRETE_CLS)
     else:
         dims = rng.choice(GRIDS_LEGACY)
-        cls = "SingleGrid" if rng.random() < 0.8 else "MultiGrid"
-    g = _G(rng, impl, cls, dims)
+        cls = rng.choice(["SingleGrid", "SingleGrid", "MultiGrid", "MultiGrid", "HexSingleGrid", "HexMultiGrid"])
+    cap = rng.choice([0, 0, 0, 1, 1, 2]) if impl == "discrete" else 0
+    g = _G(rng, impl, cls, dims, cap)
     for _ in range(rng.choice([1, 2, 2, 3])):
         g.add_new_layer(attach=True)
     n_ops = n_ops or rng.randint(6, 20)
-    menu = [g.op_write] * 4 + [g.op_set] * 3 + [g.op_modify] * 4 + [g.op_agent] * 4 + [g.op_layers] * 3 + [g.op_select] * 6
+    menu = ([g.op_write] * 4 + [g.op_set] * 3 + [g.op_modify] * 4 + [g.op_agent] * rng.choice([5, 5, 14])
+            + [g.op_layers] * 3 + [g.op_select] * 6)
     while len(g.ops) < n_ops:
         rng.choice(menu)()
-    return {"impl": impl, "cls": cls, "dims": list(dims), "ops": g.ops}
+    return {"impl": impl, "cls": cls, "dims": list(dims), "cap": cap, "ops": g.ops}
 
 
 def gen_cases(rng, tier):
@@ -331,6 +378,10 @@ def gen_cases(rng, tier):
     n = 700 if tier == "quick" else 9000
     for _ in range(n):
         cases.append(_random_case(rng))
+    # the structured agent histories (every rejection, shared and full cells) also go through the model
+    for c in enumerate_cases("quick"):
+        if c["ops"] and c["ops"][0][0] == "place":
+            cases.append(c)
     return cases
 
 
@@ -358,8 +409,11 @@ def enumerate_cases(tier, broken=False):
                     h1, h2 = 0, 1
                 pre.append(["setarr", ["h", h1], [rng.choice([0, 1, 2, 2]) for _ in range(size)]])
                 pre.append(["setarr", ["n", 2], [rng.choice([8, 16, 16, 24]) for _ in range(size)]])
-                for a in range(1, 1 + max(1, size // 3)):
-                    pre.append(["place", a, rng.choice(coords)])
+                legcls = ["SingleGrid", "MultiGrid"][rep % 2] if tier == "thorough" else "MultiGrid"
+                for a in range(1, 1 + max(2, size // 2)):
+                    pre.append(["place", a, rng.choice(coords)])      # MultiGrid: several agents share a cell
+                pre.append(["rm", 1])
+                pre.append(["move", 2, rng.choice(coords)])
                 selects = []
                 condsets = [[], [[1, ["ge", 1]]], [[2, ["lt", 24]]], [[1, ["ne", 0]], [2, ["ge", 16]]], [[1, ["gt", 7]]]]
                 extsets = [[], [[1, 0]], [[1, 1]], [[2, 0]], [[1, 0], [2, 1]], [[2, 1], [1, 0]]]
@@ -372,8 +426,8 @@ def enumerate_cases(tier, broken=False):
                             for oe in (False, True):
                                 selects.append(["select", cs, es, ms, oe, (len(selects) % 3) != 0, len(ms) == 1])
                 for s in range(0, len(selects), 40):
-                    yield {"impl": impl, "cls": ("OrthogonalMooreGrid" if impl == "discrete" else "SingleGrid"),
-                           "dims": list(dims), "ops": pre + selects[s:s + 40]}
+                    yield {"impl": impl, "cls": ("OrthogonalMooreGrid" if impl == "discrete" else legcls),
+                           "dims": list(dims), "cap": 0, "ops": pre + selects[s:s + 40]}
             # rejecting calls
             rej = []
             if impl == "discrete":
@@ -401,7 +455,26 @@ def enumerate_cases(tier, broken=False):
                         ["place", 1, coords[0]], ["place", 2, coords[0]],
                         ["select", [], [[1, 2]], [], False, True, False]]
             yield {"impl": impl, "cls": ("OrthogonalVonNeumannGrid" if impl == "discrete" else "SingleGrid"),
-                   "dims": list(dims), "ops": rej}
+                   "dims": list(dims), "cap": 0, "ops": rej}
+            # agents: every rejection (full cell via place / move / move_relative, occupied SingleGrid cell, no cell in
+            # that direction) from a state with a shared / full cell, each followed by only_empty selections
+            sel = [["select", [], [], [], True, True, False], ["select", [], [], [], True, False, False]]
+            c0, c1 = coords[0], coords[-1]
+            nd = len(dims)
+            step = [0] * (nd - 1) + [1]
+            if impl == "discrete":
+                for cls in ("OrthogonalMooreGrid", "OrthogonalVonNeumannGrid"):
+                    for cap in (0, 1, 2):
+                        ops = [["place", 1, c0], ["place", 2, c0], ["place", 3, c0], *sel, ["place", 4, c1], ["move", 4, c0],
+                               ["mrel", 4, [-x for x in step]], ["mrel", 4, [0] * nd], ["mrel", 4, [1] * nd], ["mrel", 1, step],
+                               *sel, ["mrel", 1, [-x for x in step]], ["mrel", 1, [-x for x in step]], ["move", 1, c0],
+                               ["rm", 1], ["rm", 2], *sel, ["move", 4, c0], ["move", 4, c0], *sel]
+                        yield {"impl": impl, "cls": cls, "dims": list(dims), "cap": cap, "ops": ops}
+            else:
+                for cls in ("SingleGrid", "MultiGrid", "HexSingleGrid", "HexMultiGrid"):
+                    ops = [["place", 1, c0], ["place", 2, c0], ["place", 3, c1], *sel, ["move", 3, c0], ["move", 1, c0],
+                           ["move", 1, c1], *sel, ["rm", 2], ["rm", 1], *sel, ["rm", 3], *sel, ["place", 2, c0], ["move", 2, c0], *sel]
+                    yield {"impl": impl, "cls": cls, "dims": list(dims), "cap": 0, "ops": ops}
     # random histories with more selects
     for i in range(200 if tier == "quick" else 1500):
         yield _random_case(rng)
@@ -508,6 +581,8 @@ class _Run:
         self.case = case
         self.impl = case["impl"]
         self.discrete = self.impl == "discrete"
+        self.multi = "Multi" in case["cls"]
+        self.cap = case.get("cap") or 0
         self.dims = tuple(case["dims"])
         self.coords = list(itertools.product(*(range(d) for d in self.dims)))
         self.model = mesa.Model(seed=1)
@@ -518,13 +593,14 @@ class _Run:
                 from mesa.discrete_space.property_layer import PropertyDescriptor, PropertyLayer
 
                 self.PL, self.PD = PropertyLayer, PropertyDescriptor
-                self.grid = getattr(ds, case["cls"])(self.dims, torus=False, random=random.Random(1))
+                self.grid = getattr(ds, case["cls"])(self.dims, torus=False, capacity=(case.get("cap") or None),
+                                                     random=random.Random(1))
                 self.handles = [self.grid._mesa_property_layers["empty"]]
             else:
-                from mesa.space import MultiGrid, PropertyLayer, SingleGrid
+                import mesa.space as msp
 
-                self.PL = PropertyLayer
-                self.grid = {"SingleGrid": SingleGrid, "MultiGrid": MultiGrid}[case["cls"]](self.dims[0], self.dims[1], False)
+                self.PL = msp.PropertyLayer
+                self.grid = getattr(msp, case["cls"])(self.dims[0], self.dims[1], False)
                 self.handles = []
         self.agents = {}      # id -> agent object (ever created)
         # the oracle's shadow: what the statement says the values are
@@ -727,7 +803,7 @@ def _exc_kind(e):
 SITE = {"add": "add_property_layer", "create": "add_property_layer", "remove": "remove_property_layer",
         "lwrite": "set_cell", "modcell": "modify_cell", "modcells": "modify_cells", "set": "set_cells",
         "setarr": "set_cells", "select": "select_cells", "place": "place_agent", "cellwrite": "cell-write",
-        "move": "move_agent", "rm": "remove_agent", "new": "PropertyLayer"}
+        "move": "move_agent", "mrel": "move_relative", "rm": "remove_agent", "new": "PropertyLayer"}
 
 
 def run_impl(case):
@@ -945,11 +1021,19 @@ def run_impl(case):
                     result = ("ok", [len(gl)] + [x for c in gl for x in c])
                 else:
                     result = ("ok", [int(gm_arr[c]) for c in R.coords])
-            elif kind in ("place", "move", "rm"):
+            elif kind in ("place", "move", "mrel", "rm"):
                 a = op[1]
-                if case["cls"] == "MultiGrid":
-                    result = ("skip",)
-                elif kind == "place":
+
+                def others(c):
+                    return sum(1 for b, v in R.sh_agents.items() if v == c and b != a)
+
+                def rejects(c):
+                    """the statement's side: does cell c refuse agent a"""
+                    if discrete:
+                        return bool(R.cap) and others(c) >= R.cap
+                    return (not R.multi) and others(c) > 0
+
+                if kind == "place":
                     c = tuple(op[2])
                     if c not in R.coords or a in R.sh_agents:
                         result = ("skip",)
@@ -960,11 +1044,11 @@ def run_impl(case):
 
                             R.agents[a] = CellAgent(R.model) if discrete else mesa.Agent(R.model)
                         ag = R.agents[a]
+                        if rejects(c):
+                            expect_err = E_EXC
                         if discrete:
                             ag.cell = R.grid._cells[c]
                         else:
-                            if c in R.sh_agents.values():
-                                expect_err = E_EXC
                             R.grid.place_agent(ag, c)
                         R.sh_agents[a] = c
                         result = ("ok", [])
@@ -972,15 +1056,37 @@ def run_impl(case):
                     c = tuple(op[2])
                     if c not in R.coords or a not in R.sh_agents:
                         result = ("skip",)
-                    elif not discrete and any(v == c and b != a for b, v in R.sh_agents.items()):
-                        result = ("skip",)
                     else:
                         ag = R.agents[a]
+                        if rejects(c) and R.sh_agents[a] != c:
+                            expect_err = E_EXC
                         if discrete:
-                            ag.cell = R.grid._cells[c]
+                            if sum(c) % 2:
+                                ag.cell = R.grid._cells[c]
+                            else:
+                                ag.move_to(R.grid._cells[c])
                         else:
                             R.grid.move_agent(ag, c)
                         R.sh_agents[a] = c
+                        result = ("ok", [])
+                elif kind == "mrel":
+                    d = tuple(op[2])
+                    if not discrete or a not in R.sh_agents or case["cls"] == "HexGrid":
+                        result = ("skip",)
+                    else:
+                        ag = R.agents[a]
+                        c0 = R.sh_agents[a]
+                        t = tuple(x + y for x, y in zip(c0, d))
+                        nzc = sum(1 for x in d if x)
+                        moore = case["cls"] == "OrthogonalMooreGrid"
+                        ok_dir = (len(d) == len(c0) and all(-1 <= x <= 1 for x in d)
+                                  and (nzc >= 1 if moore else nzc == 1) and t in R.grid._cells)
+                        if not ok_dir:
+                            expect_err = E_VALUE
+                        elif rejects(t):
+                            expect_err = E_EXC
+                        ag.move_relative(d)
+                        R.sh_agents[a] = t
                         result = ("ok", [])
                 else:
                     if a not in R.sh_agents:
@@ -995,7 +1101,7 @@ def run_impl(case):
                         result = ("ok", [])
             else:
                 raise ValueError(f"unknown op {op}")
-            if discrete and kind in ("place", "move", "rm"):
+            if discrete and kind in ("place", "move", "mrel", "rm"):
                 occ = set(R.sh_agents.values())
                 R.sh[0] = {c: int(c not in occ) for c in R.coords}
             # the call returned
@@ -1095,8 +1201,10 @@ def _op(case, op):
         exts = L.lst([L.pair(L.z(n), L.z(m)) for n, m in op[2]])
         masks = L.lst([L.lst([L.b(x) for x in m]) for m in op[3]])
         return f"Select {conds} {exts} {masks} {L.b(op[4])} {L.b(op[5])}"
-    if case["cls"] == "MultiGrid":
-        return "Skip"
+    if k == "mrel":
+        if case["impl"] != "discrete" or case["cls"] == "HexGrid":
+            return "Skip"
+        return f"MoveRel {L.z(op[1])} {L.zlist(op[2])} {L.b(case['cls'] == 'OrthogonalMooreGrid')}"
     if k == "place":
         return f"Place {L.z(op[1])} {L.zlist(op[2])}"
     if k == "move":
@@ -1108,7 +1216,8 @@ def _op(case, op):
 
 def coq_case(case):
     ops = L.lst([_op(case, o) for o in case["ops"]])
-    return f"{{| c_discrete := {L.b(case['impl'] == 'discrete')}; c_dims := {L.zlist(case['dims'])}; c_ops := {ops} |}}"
+    return (f"{{| c_discrete := {L.b(case['impl'] == 'discrete')}; c_multi := {L.b('Multi' in case['cls'])}; "
+            f"c_cap := {L.z(case.get('cap') or 0)}; c_dims := {L.zlist(case['dims'])}; c_ops := {ops} |}}")
 
 
 def op_kinds(case):
@@ -1142,7 +1251,7 @@ LEVEL_TEXT = ("Machine-checked Coq theorems over a Gallina transcription of both
               "(C11_write_read_*, C11_bulk_*), the emptiness layer / legacy empty mask equals actual emptiness (C11_empty_layer_true, C11_empty_mask_true), "
               "select_cells selects exactly the coordinates satisfying masks, only_empty, conditions and the sequential "
               "highest/lowest criteria (C11_select_exact), list and mask form agree (C11_list_mask_same), and every rejected call "
-              "leaves the state unchanged (C18_proplayer_atomic). The model is tied to the code by differential evaluation on "
+              "leaves the state unchanged (C18_proplayer_atomic, C18_proplayer_full_cell); selection is also stated over ACTUAL emptiness for every reachable state (C11_select_exact_actual), and the order of the select_cells stages is re-extracted from the source on every run (T1, C11_source_select_order). The model is tied to the code by differential evaluation on "
               "random and enumerated histories (T2); an independent oracle states the property on the implementation.")
 LEVEL_NOTE = ("Theorems are about the model; NumPy primitives are modelled as list functions and validated only by the correspondence. "
               "Trusted: Coq kernel, the driver/observer, the hand transcription. No axioms.")
